@@ -104,15 +104,17 @@ func (p *VarHeaderPostprocessor) substr(args []string) (func(in string) string, 
 	}
 	return func(in string) string {
 		l := len(in)
+		// Modifier is called for every response: work on copies, not on captured arguments.
+		start, end := start, end
 		if start < 0 {
 			start = l + start
 		}
 		if end <= 0 {
 			end = l + end
 		}
-		if end > l {
-			end = l
-		}
+		// Header value can be shorter, than expected in config.
+		start = max(0, min(start, l))
+		end = max(0, min(end, l))
 		if start > end {
 			start, end = end, start
 		}
